@@ -35,14 +35,15 @@ def plan(tier):
 
 
 def gen_cases(ctx):
-    for i in range(ctx.share(ctx.scale(2400, 200000))):
+    slow = 4 if ctx.mode == "bounds" else 1   # bounds-checked kernels are several times slower
+    for i in range(ctx.share(ctx.scale(2400, 200000)) // slow):
         rng = ctx.rng(1, i)
         n = int(rng.choice([1, 2, 3, 10, 100, 3500], p=[0.05, 0.1, 0.15, 0.3, 0.35, 0.05]))
         yield {"kind": "direct", "seed": int(rng.integers(1 << 31)), "n": n,
                "chi": float(rng.choice([0.0, 1e-12, 0.3, 0.9, 0.999, rng.uniform(0, 1)])),
                "vol": str(rng.choice(["dirichlet_sharp", "dirichlet", "uniform", "zeros", "ties", "threshold_ties", "all_below", "dominant"])),
                "tex": str(rng.choice(["random", "cluster", "single"]))}
-    for i in range(ctx.share(ctx.scale(84, 3000))):
+    for i in range(ctx.share(ctx.scale(84, 3000)) // slow):
         rng = ctx.rng(2, i)
         c = drive.random_history_case(rng)
         c["kind"] = "history"
@@ -176,7 +177,10 @@ def _history(ctx, pydrex, case):
             warnings.simplefilter("ignore")
             H.run(m, on_update=on_update)
     except Exception as e:
-        ctx.check("hist:completes", False, case, key=f"raises/{type(e).__name__}", exc=str(e)[:200])
+        if drive.solver_gave_up(case, e):
+            ctx.count("solver_gave_up_under_user_tolerances")
+        else:
+            ctx.check("hist:completes", False, case, key=f"raises/{type(e).__name__}", exc=str(e)[:200])
     finally:
         mon.record_gbs = False
         mon.gbs_calls = []
